@@ -325,6 +325,10 @@ def corpus(cellname, gdim):
     F["coordinates+math"] = x[0] * g * v * dx + sin(f) * v * dx + exp(g) * conditional(lt(f, 1), f, f * f) * v * ds
     F["variable-diff"] = (lambda w_: diff(w_ ** 3 + w_ * g, w_) * v * dx)(variable(f))
     F["index-notation"] = as_tensor(grad(uu)[i, k] * A[k, j], (i, j))[l, l] * vv[0] * dx + ww[i] * grad(vv)[i, j] * uu[j] * dx
+    # geometry written by the user: J K is the identity only on non-immersed cells (the tangential projector otherwise), K J always
+    Jm, Km = ufl.Jacobian(m), ufl.JacobianInverse(m)
+    F["explicit J K contraction"] = (Jm[0, k] * Km[k, 0]) * g * v * dx + (Jm[i, k] * Km[k, i]) * v * dx(1)
+    F["explicit K J contraction"] = (Km[0, k] * Jm[k, 0]) * g * v * dx + (Km[i, k] * Jm[k, i]) * v * dx(1)
     if gdim == t:
         F["jacobian of nonlinear residual"] = derivative((1 + f * f) * dot(grad(f), grad(v)) * dx, f, TrialFunction(V2))
         F["elasticity"] = inner(sym(grad(uu)), grad(vv)) * dx + div(uu) * div(vv) * dx(1)
@@ -367,6 +371,7 @@ def option_sets(thorough):
            {**base, "do_apply_function_pullbacks": True, "do_apply_geometry_lowering": True, "do_apply_integral_scaling": True},
            {**base, "do_apply_geometry_lowering": True}, {**base, "do_replace_functions": True, "do_remove_component_tensors": True},
            {**full, "do_apply_function_pullbacks": False}, {**base, "do_append_everywhere_integrals": False, "do_apply_integral_scaling": True}]
+    n_cover = len(out)
     if thorough:
         for k in FLAGS:
             a = dict(base)
@@ -375,6 +380,8 @@ def option_sets(thorough):
             b = dict(full)
             b[k] = False
             out.append(b)
+    n_flip = len(out)
+    if thorough == "all":
         for bits in itertools.product((False, True), repeat=len(FLAGS)):
             out.append(dict(zip(FLAGS, bits)))
     uniq, seen = [], set()
@@ -725,18 +732,28 @@ def build(run):
         return None
 
     cases = [("triangle", 2), ("tetrahedron", 3), ("interval", 1), ("triangle", 3)]
+    # option sets: quick = a covering set of 9 (triangle) / 3 of them (other cells); thorough = covering set + every single-flag flip of
+    # the minimal and the full pipeline on the triangle, the covering set on the other cells (all facets, heavy tetrahedron forms
+    # included), and every valid combination of the 10 flags (~770) for three representative forms on the triangle
     osets = option_sets(thorough)
+    osets_all = option_sets("all") if thorough else []
+    ALL_FLAGS_FORMS = ("mass", "poisson+reaction+boundary", "mixed poisson (Piola)")
     for cellname, gdim in cases:
         S.set_counters({k: 400 for k in S.COUNTER_FAMILIES})
         _, Fs = corpus(cellname, gdim)
         for fname in Fs:
             heavy = cellname == "tetrahedron" and fname not in ("mass", "rhs", "poisson+reaction+boundary", "cell volume", "subdomains+metadata", "coordinates+math")
-            for k, opts in enumerate(osets):
+            sets_here = osets
+            if thorough and (cellname, gdim) == ("triangle", 2) and fname in ALL_FLAGS_FORMS:
+                sets_here = osets_all
+            for k, opts in enumerate(sets_here):
                 if not thorough:
                     if (cellname, gdim) != ("triangle", 2) and k not in (1, 4, 8):
                         continue
                     if heavy:
                         continue        # tetrahedron with Piola maps / tensor algebra: thorough tier only (minutes per equation)
+                elif (cellname, gdim) != ("triangle", 2) and k >= 9:
+                    continue            # single-flag flips: triangle only
                 nfac = TDIM[cellname] + 1
                 facets = list(range(nfac)) if thorough else [0, nfac - 1]
                 numeric_only = fname.startswith("shape derivative") and TDIM[cellname] >= 2 and fname != "shape derivative of a volume functional"
